@@ -60,6 +60,12 @@ def opOf2 (op : String) (ts : List String) : Option (Nat × AllocTree) :=
   | "atk_automorphism" => some (tbAtkAutomorphism be n res a k same, treeAtkAutomorphism be n (g "rdnum" * g "krin") res a k same)
   | "atk_automorphism_assign" => some (tbAtkAutomorphism be n res res k true, treeAtkAutomorphismAssign be n (g "rdnum" * g "krin") res k)
   | "ggsw_rotate_assign" => some (tbGlweRotate n, treeRows (tbGlweRotate n) (g "rdnum") (treeGlweRotateAssign n))
+  | "glwe_noise" => some (tbGlweNoise be n res.size, treeGlweNoise be n res)
+  | "gglwe_noise" => some (tbGglweNoise be n res.size, treeGglweNoise be n res)
+  | "ggsw_noise" => some (tbGgswNoise be n res.size, treeGgswNoise be n res (g "col"))
+  | "glwe_tensor_decrypt" => some (tbGlweTensorDecrypt be n res, treeGlweTensorDecrypt be n res)
+  | "glwe_pack" => some (tbGlwePack be n res k, treeGlwePack be n (g "rounds") (g "gap") res res k)
+  | "glwe_packer_add" => some (tbGlwePacker be n res k, treeGlwePackerAdd be n res k)
   | "glwe_mul_const" => some (tbGlweMulConst be n res a (g "bsize"), treeGlweMulConst be n (g "off") res a (g "bsize"))
   | "glwe_mul_const_assign" => some (tbGlweMulConst be n res res (g "bsize"), treeGlweMulConstAssign be n res (g "bsize"))
   | _ => none
